@@ -21,10 +21,13 @@ FLAVOURS = {
     'msan-wrap': {'cc': 'clang', 'cflags': '-O1 -g -fno-omit-frame-pointer -fsanitize=memory -fsanitize-memory-track-origins=2 -DNDEBUG', 'extra_src': ['pv_wrap.c'], 'ldextra': WRAPS},
     'schar':    {'cc': 'gcc', 'cflags': SAN + ' -DNDEBUG', 'lib_cflags': '-fsigned-char'},
     'uchar':    {'cc': 'gcc', 'cflags': SAN + ' -DNDEBUG', 'lib_cflags': '-funsigned-char'},
+    # a narrow execution character set other than UTF-8 (what MSVC does without /utf-8): only u8"" literals keep their bytes
+    'asan-cp932': {'cc': 'gcc', 'cflags': SAN + ' -DNDEBUG', 'lib_cflags': '-fexec-charset=CP932'},
     'tsan':     {'cc': 'gcc', 'cflags': '-O1 -g -fsanitize=thread -DNDEBUG'},
     # libc entry points reachable from the library are interposed at link time (C11, C15, C18)
     'asan-wrap': {'cc': 'gcc', 'cflags': SAN + ' -DNDEBUG', 'extra_src': ['pv_wrap.c'],
                   'ldextra': WRAPS},
+    'uchar-wrap': {'cc': 'gcc', 'cflags': SAN + ' -DNDEBUG', 'lib_cflags': '-funsigned-char', 'extra_src': ['pv_wrap.c'], 'ldextra': WRAPS},
     'asan-dbg-wrap': {'cc': 'gcc', 'cflags': SAN, 'extra_src': ['pv_wrap.c'],
                   'ldextra': WRAPS},
     'plain-wrap': {'cc': 'gcc', 'cflags': '-O2 -g -DNDEBUG', 'extra_src': ['pv_wrap.c'],
@@ -59,6 +62,7 @@ PROPS['C07'] = {
     'exhaustive_possible': True,
     'runs': [
         {'name': 'sweep-asan', 'flavour': 'asan', 'driver': 'drv_c07', 'timeout': 1800},
+             {'name': 'cp932', 'flavour': 'asan-cp932', 'driver': 'drv_c07', 'env': {'PV_SCALE': '10'}, 'shards': 6, 'timeout': 1800},
         {'name': 'stripe-clang', 'flavour': 'clang-asan', 'driver': 'drv_c07', 'env': {'PV_SCALE': '10'}, 'shards': 6, 'timeout': 1800},
         {'name': 'selftest-dbg', 'flavour': 'asan-dbg', 'driver': 'drv_c07', 'env': {'PV_SCALE': '100'}, 'args': [], 'shards': 4,
          'tiers': ('thorough',)},
@@ -82,6 +86,7 @@ PROPS['C03'] = {
     'python_vectors': (4000, 60000),      # fresh vectors from spec/spec.py for every run (seeded by VERIF_SEED)
     'exhaustive_possible': True,
     'runs': [{'name': 'asan', 'flavour': 'asan', 'driver': 'drv_c03'},
+             {'name': 'cp932', 'flavour': 'asan-cp932', 'driver': 'drv_c03', 'env': {'PV_SCALE': '15'}, 'shards': 4},
              {'name': 'clang', 'flavour': 'clang-asan', 'driver': 'drv_c03', 'env': {'PV_SCALE': '20'}, 'shards': 6},
              {'name': 'native', 'flavour': 'asan-native', 'driver': 'drv_c03', 'env': {'PV_SCALE': '20'}, 'shards': 4}],
     'require': {'concurrent.phrases_equal_specification': 30000, 'encode.calls': 400000, 'bits.seeds': 13531, 'purity.histories_agree': 1000, 'reserved_bit.decodes': 100, 'oracle.vectors_reproduced': 3000, 'lengths.encoded': 1500, 'pyvec.phrases_equal_to_python_spec': 3000, 'lengths.ko.decile8': 3, 'lengths.ko.decile6': 5, 'lengths.jp.decile4': 1},
@@ -116,6 +121,7 @@ PROPS['C08'] = {
     'level': 'exploration',
     'exhaustive_possible': True,
     'runs': [{'name': 'asan', 'flavour': 'asan', 'driver': 'drv_c08', 'timeout': 1800},
+             {'name': 'uchar', 'flavour': 'uchar', 'driver': 'drv_c08', 'env': {'PV_SCALE': '10'}, 'shards': 6, 'timeout': 1800},
              {'name': 'native', 'flavour': 'asan-native', 'driver': 'drv_c08', 'env': {'PV_SCALE': '10'}, 'shards': 6, 'timeout': 1800},
              # coverage-guided differential: libFuzzer mutates phrases, the target compares both decoders with the reference pipeline
              {'name': 'fuzz-model', 'kind': 'fuzz', 'flavour': 'fuzz', 'driver': 'fuzz_api', 'mode': 4, 'runs_quick': 25000, 'runs_thorough': 1500000}] +
@@ -151,6 +157,7 @@ MANIFEST_TEXT = {
 PROPS['C01'] = {
     'level': 'exploration',
     'runs': [{'name': 'asan', 'flavour': 'asan', 'driver': 'drv_c01'},
+             {'name': 'uchar', 'flavour': 'uchar', 'driver': 'drv_c01', 'env': {'PV_SCALE': '10'}, 'shards': 4},
              {'name': 'clang', 'flavour': 'clang-asan', 'driver': 'drv_c01', 'env': {'PV_SCALE': '15'}, 'shards': 6},
              {'name': 'native', 'flavour': 'asan-native', 'driver': 'drv_c01', 'env': {'PV_SCALE': '10'}, 'shards': 4},
              {'name': 'asan-dbg', 'flavour': 'asan-dbg', 'driver': 'drv_c01', 'env': {'PV_SCALE': '10'}, 'shards': 4}],
@@ -214,7 +221,7 @@ PROPS['C10'] = {
     'runs': [{'name': 'asan', 'flavour': 'asan', 'driver': 'drv_c10'},
              {'name': 'asan-dbg', 'flavour': 'asan-dbg', 'driver': 'drv_c10', 'env': {'PV_SCALE': '25'}, 'shards': 6},
              {'name': 'native', 'flavour': 'asan-native', 'driver': 'drv_c10', 'env': {'PV_SCALE': '25'}, 'shards': 4}],
-    'require': {'default.cells_ok': 32, 'matrix.cells_with_reinjection': 1500, 'history.reinjections': 1000, 'enable.return_ok': 6000, 'cell.load.OK': 1000, 'cell.load.ERR_UNSUPPORTED': 1000, 'cell.decode.ERR_UNSUPPORTED': 1000,
+    'require': {'concurrent.cells_ok': 10000, 'getters.checked_under_a_changed_mask': 1000, 'default.cells_ok': 32, 'matrix.cells_with_reinjection': 1500, 'history.reinjections': 1000, 'enable.return_ok': 6000, 'cell.load.OK': 1000, 'cell.load.ERR_UNSUPPORTED': 1000, 'cell.decode.ERR_UNSUPPORTED': 1000,
                 'cell.decode_explicit.ERR_UNSUPPORTED': 1000, 'cell.create.ERR_UNSUPPORTED': 500, 'cell.create.OK': 500, 'getters.checked': 5000, 'history.creates_ok': 5000, 'cell.create.ERR_UNSUPPORTED(allocator failing)': 500},
 }
 MANIFEST_TEXT['C10'] = {'technique': 'runtime monitoring: exhaustive argument x feature-value x entry-point matrix through the API vs model (ASan/UBSan)',
@@ -237,6 +244,7 @@ MANIFEST_TEXT['C11'] = {'technique': 'runtime monitoring: scripted clock through
 PROPS['C12'] = {
     'level': 'exploration',
     'runs': [{'name': 'asan', 'flavour': 'asan', 'driver': 'drv_c12'},
+             {'name': 'uchar', 'flavour': 'uchar', 'driver': 'drv_c12', 'env': {'PV_SCALE': '15'}, 'shards': 4},
              {'name': 'native', 'flavour': 'asan-native', 'driver': 'drv_c12', 'env': {'PV_SCALE': '15'}, 'shards': 4},
              {'name': 'msan', 'flavour': 'msan', 'driver': 'drv_c12', 'env': {'PV_SCALE': '15', 'PV_NO_STATIC_MONITOR': '1'}, 'shards': 4}],
     'require': {'concurrent.applications_equal_model': 20000, 'involution.restored': 20000, 'crypt.under_a_different_feature_mask': 10000, 'cases.all_clauses_held': 20000, 'crypt.mask_source.boundary': 5000, 'crypt.mask_source.random': 5000,
@@ -298,6 +306,7 @@ PROPS['C18'] = {
     'level': 'exploration',
     'runs': [{'name': 'asan-wrap', 'flavour': 'asan-wrap', 'driver': 'drv_c18'},
              {'name': 'asan-dbg-wrap', 'flavour': 'asan-dbg-wrap', 'driver': 'drv_c18', 'env': {'PV_SCALE': '10'}, 'shards': 4},
+             {'name': 'uchar-wrap', 'flavour': 'uchar-wrap', 'driver': 'drv_c18', 'env': {'PV_SCALE': '10'}, 'shards': 4},
              # the shared object as shipped, inside a host program that defines (read-only / aborting) symbols with the names of all internal globals of the library
              {'name': 'shared-hostile-host', 'flavour': 'shared', 'driver': 'drv_c03', 'env': {'PV_SCALE': '5'}, 'shards': 2}],
     'require': {'rand.creates_ok': 50000, 'rand.single_bit_patterns_ok': 152, 'rand.creates_with_repeated_random_output': 5000, 'inject.histories_ok': 1500, 'inject.struct_unmapped_afterwards': 500,
@@ -312,6 +321,7 @@ PROPS['C13'] = {
     'level': 'exploration',
     'exhaustive_possible': True,
     'runs': [{'name': 'asan', 'flavour': 'asan', 'driver': 'drv_c13', 'timeout': 1800},
+             {'name': 'uchar', 'flavour': 'uchar', 'driver': 'drv_c13', 'env': {'PV_SCALE': '10'}, 'shards': 4, 'timeout': 1800},
              {'name': 'asan-dbg', 'flavour': 'asan-dbg', 'driver': 'drv_c13', 'env': {'PV_SCALE': '10'}, 'shards': 4, 'timeout': 1800},
              {'name': 'clang', 'flavour': 'clang-asan', 'driver': 'drv_c13', 'env': {'PV_SCALE': '10'}, 'shards': 4, 'timeout': 1800},
              {'name': 'native', 'flavour': 'asan-native', 'driver': 'drv_c13', 'env': {'PV_SCALE': '10'}, 'shards': 4, 'timeout': 1800},
@@ -320,7 +330,7 @@ PROPS['C13'] = {
              {'name': 'lto+locale', 'flavour': 'plain-lto', 'driver': 'drv_c13', 'env': {'PV_SCALE': '8', 'PV_LOCALE': 'C.utf8'}, 'shards': 2, 'timeout': 1800},
              {'name': 'Os', 'flavour': 'plain-Os', 'driver': 'drv_c13', 'env': {'PV_SCALE': '8'}, 'shards': 2, 'timeout': 1800},
              {'name': 'O3-native', 'flavour': 'plain-O3', 'driver': 'drv_c13', 'env': {'PV_SCALE': '8'}, 'shards': 2, 'timeout': 1800}],
-    'require': {'walks.matched_model': 3000, 'exhaustive.sequences': 11110, 'ops.create': 10000, 'ops.load': 10000, 'ops.decode': 20000, 'ops.crypt': 10000, 'ops.reinject': 3000,
+    'require': {'endurance.crypt.66000_repetitions': 1, 'endurance.decode+free.66000_repetitions': 1, 'endurance.create+free.66000_repetitions': 1, 'walks.matched_model': 3000, 'exhaustive.sequences': 11110, 'ops.create': 10000, 'ops.load': 10000, 'ops.decode': 20000, 'ops.crypt': 10000, 'ops.reinject': 3000,
                 'ops.enable': 5000, 'ops.free': 5000, 'observations': 100000, 'static_storage.checks': 100000, 'walks.with_address_reusing_allocator': 1500, 'walks.with_libc_malloc_and_injected_free': 300, 'direct.sequences': 2500, 'direct.same_address_two_seeds': 2000, 'ops.non_constructor_with_failing_allocator': 500, 'max.static_storage.ranges_of_library_objects_monitored': 2},
 }
 MANIFEST_TEXT['C13'] = {'technique': 'runtime monitoring: lock-step execution of operation sequences against an executable abstract model (history + model), junk-filling allocator, ASan/UBSan (NDEBUG and assertion-enabled builds)',
